@@ -80,9 +80,9 @@ def random_program(rng):
 
 def units(tier, seed):
     us = []
-    for i in range(16 if tier == 'quick' else 100):
+    for i in range(16 if tier == 'quick' else 320):
         us.append(('history', i))
-    for i in range(6 if tier == 'quick' else 60):
+    for i in range(6 if tier == 'quick' else 128):
         us.append(('conc', i))
     return us
 
